@@ -3,7 +3,8 @@
 usage: seed_store.py Cnn slug 'summary' 'needs_to_manifest' 'confirmed' 'existing tests' 'detected_by' [caught|missed|caught-after-strengthening]"""
 import json, os, shutil, subprocess, sys
 pid, slug, summary, needs, confirmed, tests, detected, status = sys.argv[1:9]
-out = '/tmp/seed_%s_out' % pid
+P = os.environ.get('SEEDPFX', 'seed')
+out = '/tmp/%s_%s_out' % (P, pid)
 dst = '/verif/seeded/%s-%s' % (pid, slug)
 os.makedirs(dst, exist_ok=True)
 for f in os.listdir(out):
@@ -14,7 +15,7 @@ meta = {'property': pid, 'summary': summary, 'needs_to_manifest': needs,
         'confirmed': confirmed, 'existing_tests_run_by_author': tests, 'detected_by': detected, 'status': status,
         'check_command': 'VERIF_REPO=<worktree with patch.diff applied> ./check %s' % pid}
 json.dump(meta, open(os.path.join(dst, 'meta.json'), 'w'), indent=1)
-wt = '/tmp/seed_%s' % pid
+wt = '/tmp/%s_%s' % (P, pid)
 if os.path.isdir(wt) and '--keep' not in sys.argv:
     subprocess.run(['git', '-C', '/repo', 'worktree', 'remove', '--force', wt])
 print('stored', dst)
